@@ -12,7 +12,7 @@ def jobs(tier):
     js = D.g_leaf(m, deep=1) + D.g_typed(("VALID",))
     js += [(W.unit_command, (None, "strict", True)), (W.unit_response, (None, "strict", False))]
     js += [(W.unit_tpmu, (un, sn, "strict")) for un, sn in W.union_parents()]
-    return js + D.g_crosscheck(tier, SEED[0], only_frames=True)
+    return js + D.g_crosscheck(tier, SEED[0], only_frames=True) + D.g_dispatch(("strict",))
 
 
 def keep(name, ob):
